@@ -32,7 +32,7 @@ REQUIRE_CLAUSES = ["ctor_requires_columns", "ctor_holds_given_data", "wrap_keeps
                    "add_combines", "concat_rows", "copy_equal", "copy_independent", "new_object_receiver_untouched",
                    "addcols_columns", "keepcols_subset", "dropextra_required_only", "filter_rows",
                    "shuffle_permutation_in_place", "sort_permutation_in_place", "sort_order", "sortcols_required_first",
-                   "chrx_label_doc", "dlc_subsequence", "resid_chrom_median", "flat_doc", "as_series_index"]
+                   "chrx_label_doc", "dlc_subsequence", "resid_chrom_median", "flat_doc", "as_series_index", "init_holds_given_table"]
 
 # Findings of this module that are not (yet) listed in /verif/known_findings.json (that file belongs to the main
 # session); they are merged into ctx.known at run time so the check reports them as KNOWN-FINDING and exits 0.
@@ -675,9 +675,7 @@ def _tabulate(ctx, W, res, st):
     for l, t in st["drift"]:
         drift.setdefault(l, []).append(t)
     oos = set(st["oos"])
-    if 1 in failed:
-        raise MachineryError(f"initial objects of world {res['w']} do not project to their declared state: {failed[1]}")
-    for l in range(2, len(evs) + 1):
+    for l in range(1, len(evs) + 1):      # l = 1 is the construction of the world's initial objects (op "init")
         e = evs[l - 1]
         op = e["m"]
         if l in drift:     # A-layer conformance is a diagnostic, also outside the documented premises
@@ -688,10 +686,11 @@ def _tabulate(ctx, W, res, st):
         if l in oos:
             ctx.out_of_scope += 1
             continue
-        ctx.judged += 1
-        ctx.op_counts[op] = ctx.op_counts.get(op, 0) + 1
         for c in checked.get(l, ()):
             ctx.clause_counts[c] = ctx.clause_counts.get(c, 0) + 1
+        if l > 1:          # the initial construction is judged, but not counted as a call of the behaviour
+            ctx.judged += 1
+            ctx.op_counts[op] = ctx.op_counts.get(op, 0) + 1
         if l in failed:
             unexplained = []
             for c in sorted(failed[l]):
